@@ -18,7 +18,7 @@ Units == { C1, CJ1, <<Q(3,5), Q(4,5)>>, <<Q(5,13), Q(-12,13)>> }     \* exp(j ph
 Ress == { Q(1,1000), Q(1,10) }
 Pos2 == {R0, Q(2,1), Q(1,3)}            \* non-negative parameter values including 0
 Amp == {Q(2,1), Q(-3,2)}
-SrcW == {R0, R1, Q(2,1)}
+SrcW == {R0, R1, Q(2,1), Q(1000,1)}          \* incl. a high frequency: the resolution is an absolute distance, not a relative one
 PerW == {R1, Q(1,2), Q(1,10), Q(7,10)}          \* incl. fundamentals that are not binary-exact (n * w0 / w0 is then not exactly n in binary64)
 WaveSet == IF Tier = "quick" THEN {"rect", "saw", "cos"} ELSE Waves
 
